@@ -487,6 +487,10 @@ class Exec(object):
 
     def binop(self, s1, op, a, b, node=None):
         outs = []
+        if isinstance(op, (ast.BitAnd, ast.BitOr, ast.BitXor, ast.LShift, ast.RShift)) and s1.entails(z3.And(Val.is_i(a), Val.is_i(b))):
+            # bit operations on integers: kept abstract (a function of both operands) -- no obligation of this repository depends on their value
+            BITOP = z3.Function('bitop_' + type(op).__name__, z3.IntSort(), z3.IntSort(), z3.IntSort())
+            return [(s1, ('val', I(BITOP(Val.iv(a), Val.iv(b)))))]
         if isinstance(op, (ast.Sub, ast.Mult, ast.Div, ast.Mod, ast.FloorDiv)) or isinstance(op, ast.Add) and s1.entails(z3.And(is_num(a), is_num(b))):
             sN, sBad = self.fork(s1, z3.And(is_num(a), is_num(b)))
             if sBad is not None:
@@ -1122,6 +1126,6 @@ EXCARGS = z3.Function('exception_args', z3.IntSort(), SeqV)
 
 
 BUILTINS = {'len', 'isinstance', 'hasattr', 'callable', 'str', 'repr', 'int', 'float', 'list', 'dict', 'tuple', 'iter', 'next', 'any', 'all',
-            'sorted', 'enumerate', 'range', 'type', 'super', 'open', 'bytes', 'bool', 'getattr', 'min', 'max', 'property', 'set', 'frozenset', 'zip', 'id', 'round'}
+            'sorted', 'enumerate', 'range', 'type', 'super', 'open', 'bytes', 'bool', 'getattr', 'min', 'max', 'property', 'set', 'frozenset', 'zip', 'id', 'round', 'hash'}
 LIBCONST = {'six.PY2': B(False), 'six.PY3': B(True), 'signal.SIGKILL': I(9)}
 OBJMETHODS = set()      # (class, method) pairs with a library model; filled by pyvc.lib
